@@ -519,6 +519,8 @@ package resource_info
 //@   note folds a v1.ResourceList through k8s resource.Quantity accessors (Value/MilliValue: external, havoc-all in the engine); assumed: touches no existing object, returns a new requirement with its three maps allocated; content unconstrained
 //@   fresh
 //@   ensures fresh(result.scalarResources) && fresh(result.migResources) && fresh(result.draGpuCounts)
+//@   ensures [cpuMemOfList] result.milliCpu == rlCpu(rl) && result.memory == rlMem(rl)
+//@   note cpuMemOfList only NAMES the cpu / memory amounts the list folds to (uninterpreted functions of the list object; lists are not rewritten between the calls compared: pod specs are read-only for the scheduler); it lets callers state how the amounts of several lists are combined (pod request = max(containers, init) + overhead, C01)
 //@ end
 
 //@ func (*BaseResource).SetMaxResource
@@ -653,6 +655,8 @@ package resource_info
 // ---- helper "cache": quantities of a v1.ResourceList (C14 C01 establish: node Idle == Allocatable at construction) ----
 // resource.Quantity is an opaque exact real in the engine (A-QTY). Its three accessors have no body in the loaded
 // program; they are assumed to be read-only deterministic functions of the quantity (named, not defined).
+//@ declare rlCpu(rl v1.ResourceList) real
+//@ declare rlMem(rl v1.ResourceList) real
 //@ declare qIsZero(q real) bool
 //@ declare qValue(q real) int
 //@ declare qMilli(q real) int
